@@ -16,6 +16,7 @@ static ldb_dbopt_t g_opt;
 static ldb_lru_t *g_cache = NULL;
 static ldb_bloom_t *g_bloom = NULL;
 static int g_cmp_kind = 0;
+static int g_verify = 0;   /* verify_checksums for every read */
 #define MAXSNAP 256
 static const ldb_snapshot_t *g_snaps[MAXSNAP];
 static int g_nsnaps = 0;
@@ -67,9 +68,11 @@ static void dump_table(ldb_tables_t *cache, uint64_t number, uint64_t size) {
 
 /* ---- observation of every installed edit ---- */
 int __real_ldb_versions_apply(ldb_versions_t *vset, ldb_edit_t *edit, ldb_mutex_t *mu);
+static int g_quiet = 0;    /* > 0 while a second handle (backup/copy/failed open, k2_life.h) is at work: its edits are not the history's */
 int __wrap_ldb_versions_apply(ldb_versions_t *vset, ldb_edit_t *edit, ldb_mutex_t *mu) {
   rb_iter_t it; size_t i; int rc; int first;
   uint64_t snap = vset->last_sequence;
+  if (g_quiet) return __real_ldb_versions_apply(vset, edit, mu);
   if (g_db != NULL && !ldb_snaplist_empty(&g_db->snapshots))
     snap = ldb_snaplist_oldest(&g_db->snapshots)->sequence;
   rc = __real_ldb_versions_apply(vset, edit, mu);
@@ -157,10 +160,13 @@ static void parse_opts(int argc, char **argv) {
     else if (!strcmp(argv[i], "mmap")) g_opt.use_mmap = v;
     else if (!strcmp(argv[i], "reuse_logs")) g_opt.reuse_logs = v;
     else if (!strcmp(argv[i], "paranoid")) g_opt.paranoid_checks = v;
+    else if (!strcmp(argv[i], "verify")) g_verify = v;
     else if (!strcmp(argv[i], "max_open_files")) g_opt.max_open_files = v;
     else if (!strcmp(argv[i], "comparator")) { g_cmp_kind = v; if (v == 1) g_opt.comparator = &g_rev; }
   }
 }
+
+static ldb_readopt_t ro_default(void) { ldb_readopt_t ro = *ldb_readopt_default; ro.verify_checksums = g_verify; return ro; }
 
 static const ldb_snapshot_t *snap_arg(const char *s) {
   if (s[0] == '-') return NULL;
@@ -217,6 +223,8 @@ static void do_close(void) {
   ldb_close(g_db); g_db = NULL;
 }
 
+#include "k2_life.h"   /* lifecycle commands (C20): lock2 backup bscan copydb wrongcmp failopen */
+
 int main(int argc, char **argv) {
   char *line = NULL; size_t cap = 0; char *a[16]; long callno = 0;
   if (argc < 2) return 2;
@@ -271,6 +279,8 @@ int main(int argc, char **argv) {
       rc = do_open();
       printf("RET %d vnext=%llu lastseq=%llx\n", rc, g_db ? (unsigned long long)g_db->versions->next_file_number : 0ULL,
              g_db ? (unsigned long long)g_db->versions->last_sequence : 0ULL);
+    } else if (life_cmd(n, a)) {
+      /* handled (and RET printed) by harness/k2_life.h */
     } else if (!strcmp(a[0], "layout")) {
       print_layout(); printf("RET 0\n");
     } else if (g_db == NULL) {
@@ -304,7 +314,7 @@ int main(int argc, char **argv) {
       printf("RET %d\n", ldb_write(g_db, &b, &wo)); ldb_batch_clear(&b);
     } else if (!strcmp(a[0], "get") && n >= 3) {
       vbytes k = parse_bytes(a[1]); ldb_slice_t ks = ldb_slice(k.p, k.n), val; int rc;
-      ldb_readopt_t ro = *ldb_readopt_default; ro.snapshot = snap_arg(a[2]);
+      ldb_readopt_t ro = ro_default(); ro.snapshot = snap_arg(a[2]);
       if (n >= 4) ro.verify_checksums = (a[3][0] == '1');
       rc = ldb_get(g_db, &ks, &val, &ro);
       if (rc == LDB_OK) { printf("RET found "); put_val(stdout, val.data, val.size); putchar('\n'); ldb_free(val.data); }
@@ -313,7 +323,7 @@ int main(int argc, char **argv) {
       free(k.p);
     } else if (!strcmp(a[0], "has") && n >= 3) {
       vbytes k = parse_bytes(a[1]); ldb_slice_t ks = ldb_slice(k.p, k.n); int rc;
-      ldb_readopt_t ro = *ldb_readopt_default; ro.snapshot = snap_arg(a[2]);
+      ldb_readopt_t ro = ro_default(); ro.snapshot = snap_arg(a[2]);
       rc = ldb_has(g_db, &ks, &ro);
       printf("RET %s\n", rc == LDB_OK ? "found" : rc == LDB_NOTFOUND ? "notfound" : "err"); free(k.p);
     } else if (!strcmp(a[0], "snap")) {
@@ -338,7 +348,7 @@ int main(int argc, char **argv) {
       ldb_compact(g_db, a[1][0] == '*' ? NULL : &bs, a[2][0] == '*' ? NULL : &es);
       printf("RET 0\n"); free(b.p); free(e.p);
     } else if ((!strcmp(a[0], "scan") || !strcmp(a[0], "rscan")) && n >= 2) {
-      ldb_readopt_t ro = *ldb_readopt_default; ldb_iter_t *it; int first = 1, fwd = a[0][0] == 's';
+      ldb_readopt_t ro = ro_default(); ldb_iter_t *it; int first = 1, fwd = a[0][0] == 's';
       ro.snapshot = snap_arg(a[1]);
       it = ldb_iterator(g_db, &ro);
       printf("RET ");
@@ -350,13 +360,13 @@ int main(int argc, char **argv) {
       printf(" status=%d\n", ldb_iter_status(it));
       ldb_iter_destroy(it);
     } else if (!strcmp(a[0], "iter") && n >= 3) {
-      ldb_readopt_t ro = *ldb_readopt_default; ldb_iter_t *it;
+      ldb_readopt_t ro = ro_default(); ldb_iter_t *it;
       ro.snapshot = snap_arg(a[1]);
       it = ldb_iterator(g_db, &ro);
       printf("RET "); run_script(it, a[2]); putchar('\n');
       ldb_iter_destroy(it);
     } else if (!strcmp(a[0], "iopen") && n >= 3) {
-      int id = atoi(a[1]) % MAXITER; ldb_readopt_t ro = *ldb_readopt_default;
+      int id = atoi(a[1]) % MAXITER; ldb_readopt_t ro = ro_default();
       ro.snapshot = snap_arg(a[2]);
       if (g_iters[id]) ldb_iter_destroy(g_iters[id]);
       g_iters[id] = ldb_iterator(g_db, &ro);
